@@ -553,7 +553,7 @@ SUBCHECKS = [
                   "rows-shuffled": 200, "not-bif": 50, "bif-except-root": 10}),
     Enumerate("tables_all", all_tables, run_table, shards_quick=4, shards_thorough=16),
     Sub("large_tables", large_strategy, run_large, quick=240, thorough=2400, shards_quick=4,
-        required={"large:ring-forward": 8, "large:ring-backward": 8, "large:chain-leaf-first": 8, "n>=1000": 10, "rows:shuffled": 30}),
+        required={"large:ring-forward": 8, "large:ring-backward": 8, "large:chain-leaf-first": 8, "n>=1000": 10, "rows:shuffled": 22}),
     Sub("forest", forest_strategy, run_forest, quick=3000, thorough=30000, shards_quick=4,
         required={"fix:off": 100, "fix:somas": 100, "fix:nearest": 100, "base:1": 100, "base:k": 100,
                   "first-root-later": 100, "root-in-row-0": 100, "via:dataframe": 100,
